@@ -100,7 +100,7 @@ def o2_router(ctx, role, lvl, lf, ld, n):
     ctx.reached()
 
 
-def o3_destination(ctx, role, lvl, lf, n):
+def o3_destination(ctx, role, lvl, lf, n, second=None):
     clock = fresh_env(ctx)
     radio, node, addr = build_node(ctx, clock, role, lvl)
     link, outcome = per_packet_link(ctx, radio, always=True)
@@ -121,12 +121,30 @@ def o3_destination(ctx, role, lvl, lf, n):
                 fr["message_type"], fr["reserved"]] + [fr[("b", j)] for j in range(fr["len"])]
         radio.inject_rx(ctx.int("pipe%d" % i, 1, 5), wire)
         node.update()
+    msg2 = None
+    if second is not None:
+        # a second message (another origin), sent after the first was delivered completely but before the application read it
+        f2 = sym_addr(ctx, "F2", (lf + 1) % 5)
+        ctx.assume(s_and(f2 != addr, f2 != f))
+        fid2, t2 = ctx.int("id2", 0, 0xFFFF), ctx.int("type2", 0, 127)
+        msg2 = blist(ctx.bytes("msg2", second))
+        for i, fr in enumerate(FS.fragments(f2, addr, fid2, t2, msg2) if second > 24 else
+                               [dict(from_node=f2, to_node=addr, frame_id=fid2, message_type=t2, reserved=0, len=second,
+                                     **{"b%d" % j: b for j, b in enumerate(msg2)})]):
+            body = [fr[("b", j)] for j in range(fr["len"])] if second > 24 else msg2
+            wire = [f2 & 0xFF, f2 >> 8, addr & 0xFF, addr >> 8, fid2 & 0xFF, fid2 >> 8, fr["message_type"], fr["reserved"]] + body
+            radio.inject_rx(2, wire)
+            node.update()
     q = queue_frames(node)
-    ctx.check(len(q) == 1, "delivered to the destination's queue exactly once")
-    if len(q) == 1:
+    ctx.check(len(q) == (1 if second is None else 2), "each message is delivered to the destination's queue exactly once")
+    if len(q) >= 1:
         h = q[0].header
         ctx.check(s_and(h.from_node == f, h.message_type == mtype, len(q[0].message) == n and bytes_eq(q[0].message, msg)),
                   "identical bytes, type and origin")
+    if len(q) == 2:
+        h = q[1].header
+        ctx.check(s_and(h.from_node == f2, h.message_type == t2, len(q[1].message) == second and bytes_eq(q[1].message, msg2)),
+                  "second message: identical bytes, type and origin, after the first")
     ctx.check(len(distinct_packets(radio, sent0)) == 0, "the destination transmits nothing for a user message addressed to it")
     ctx.reached()
 
@@ -136,11 +154,13 @@ TREES = {
     "wide": [0, 0o1, 0o2, 0o3, 0o4, 0o5, 0o13, 0o23, 0o33, 0o43, 0o53, 0o15, 0o25],
     "chain": [0, 0o4, 0o24, 0o324, 0o1324, 0o5324, 0o124, 0o14],
     "fifth": [0, 0o1, 0o2, 0o11, 0o51, 0o5, 0o15, 0o55, 0o511, 0o551],
+    "corner": [0, 0o4, 0o44, 0o444, 0o4444, 0o3444, 0o1, 0o5, 0o55, 0o555, 0o5555],
 }
 ROUTES = {
     "deep": [(0o1111, 0o1112), (0o1, 0), (0, 0o1111), (0o111, 0o2), (0o211, 0o12), (0o1112, 0o55), (0o11, 0o111)],
     "wide": [(0o13, 0o23), (0o5, 0o1), (0o43, 0o4), (0, 0o53), (0o15, 0o25)],
     "chain": [(0o1324, 0), (0, 0o5324), (0o1324, 0o5324), (0o124, 0o14), (0o14, 0o1324)],
+    "corner": [(0o4444, 0o1), (0o4444, 0o3444), (0o5555, 0o4444), (0o1, 0o4444), (0o4444, 0o444)],
 }
 ROUTING_ONLY = {0o11, 0o1, 0o24, 0o3}
 
@@ -224,6 +244,8 @@ def jobs(tier):
         for l in ((0,) if r == "master" else range(0 if r == "net" else 1, 5)):
             for n in ((0, 24, 25, 144) if tier == "quick" else lens):
                 out.append(Job("O3-destination-step", o3_destination, dict(role=r, lvl=l, lf=(l + 2) % 5, n=n), cost=4 + n // 24))
+    for n, sec in ((30, 40), (144, 25), (5, 30), (30, 5)):
+        out.append(Job("O3-destination-step-two-messages", o3_destination, dict(role="net", lvl=2, lf=1, n=n, second=sec), cost=10))
     for tree, routes in ROUTES.items():
         for src, dst in routes:
             for n in ((1, 25, 144) if tier == "quick" else lens):
